@@ -113,10 +113,15 @@ def havoc_assigned(eng, st, q, skip=()):
     for n in _ast.walk(_ast.Module(body=list(st.body), type_ignores=[])):
         if isinstance(n, (_ast.Assign, _ast.AugAssign, _ast.AnnAssign, _ast.For)):
             tg = n.targets if isinstance(n, _ast.Assign) else [n.target]
-            for t in tg:
-                for m in _ast.walk(t):
-                    if isinstance(m, _ast.Name):
-                        names.add(m.id)
+            stack = list(tg)
+            while stack:
+                t = stack.pop()
+                if isinstance(t, _ast.Name):
+                    names.add(t.id)
+                elif isinstance(t, (_ast.Tuple, _ast.List)):
+                    stack += list(t.elts)
+                elif isinstance(t, _ast.Starred):
+                    stack.append(t.value)          # attribute / subscript targets mutate an object: the caller havocs those
     for nm in sorted(names):
         if nm in skip or nm not in q.env:
             continue
